@@ -96,16 +96,34 @@ class Crate:
         idx = {}
         cache = {}
         for name, b in self.bodies.items():
-            m = re.match(r"^(.*?)<impl at ([^:>]+):(\d+):\d+: \d+:\d+>::(.+)$", name)
+            m = re.match(r"^(.*?)<impl at ([^:>]+):(\d+):(\d+): (\d+):(\d+)>::(.+)$", name)
             if not m:
                 continue
-            path, line, rest = m.group(2), int(m.group(3)), m.group(4)
-            key = (path, line)
+            path, line, rest = m.group(2), int(m.group(3)), m.group(7)
+            c1, c2 = int(m.group(4)), int(m.group(6))
+            key = (path, line, c1)
             if key not in cache:
                 try:
                     lines = open(os.path.join(self.src_root, path)).read().split("\n")
                 except OSError:
                     cache[key] = None
+                    continue
+                first = lines[line - 1] if line - 1 < len(lines) else ""
+                if first.lstrip().startswith("#[derive"):
+                    trait = first[c1 - 1:c2 - 1].strip()
+                    tyname = None
+                    for l in lines[line: line + 8]:
+                        mm2 = re.search(r"\b(?:struct|enum)\s+(\w+)", l)
+                        if mm2:
+                            tyname = mm2.group(1)
+                            break
+                    cache[key] = (tyname, trait, tyname) if tyname and re.fullmatch(r"\w+", trait or "") else None
+                    if cache[key] is None:
+                        continue
+                    ty, tr, selfty = cache[key]
+                    idx.setdefault((ty, tr, rest), []).append(b)
+                    b.impl_of = (ty, tr)
+                    b.impl_self = selfty
                     continue
                 hdr_txt = ""
                 for l in lines[line - 1: line + 12]:
@@ -128,12 +146,13 @@ class Crate:
                     restt = restt[pos + 5:].strip()
                 ty = base_type(restt).split("::")[-1]
                 tr = base_type(trait).split("::")[-1] if trait else None
-                cache[key] = (ty, tr)
+                cache[key] = (ty, tr, restt)
             if cache[key] is None:
                 continue
-            ty, tr = cache[key]
+            ty, tr, selfty = cache[key]
             idx.setdefault((ty, tr, rest), []).append(b)
             b.impl_of = (ty, tr)
+            b.impl_self = selfty
         self.impl_index = idx
 
     def resolve_callee(self, func):
@@ -164,6 +183,13 @@ class Crate:
             if c and len(c) == 1:
                 return c[0]
             if c and len(c) > 1:
+                # same type name, several impls: match the generic arguments of the self type
+                m_t = re.search(r"(\w+)::<(.*)>::\w+$", f)
+                if m_t:
+                    want = [a.split("::")[-1] for a in MP.split_top(m_t.group(2))]
+                    best = [b for b in c if [a.split("::")[-1] for a in generic_args(getattr(b, "impl_self", ""))] == want]
+                    if len(best) == 1:
+                        return best[0]
                 mod = "::".join(parts[:-2])
                 best = []
                 for b in c:
@@ -261,6 +287,17 @@ def hdr(crate, h, field):
     if field == "seq":
         return h.fields[("ghost", 0)].t
     return h.fields[(None, hf[field])].t
+
+
+def hdrl(crate, ex, st, h, field):
+    """like hdr() but materialises the field lazily (memoised per object identity) when the header was not built by mk_header"""
+    hf = record_header_fields(crate)
+    if field == "seq":
+        if ("ghost", 0) not in h.fields:
+            return ex._get_field(st, h, "ghost", 0, "u64").t
+        return h.fields[("ghost", 0)].t
+    ty = {"flags": "u8", "data_checksum": "u32", "header_checksum": "u32"}.get(field, "u64")
+    return ex._get_field(st, h, None, hf[field], ty).t
 
 
 def mk_header_vec(crate, ex, st, name, cap):
@@ -420,7 +457,7 @@ class ObResult:
 def prove(ex, res, st, claim, label):
     """claim must hold on path st: check pc ∧ ¬claim unsat."""
     conds = list(st.pc) + [z3.Not(claim)]
-    r = ex.check(conds)
+    r = ex.check(conds, timeout_ms=getattr(ex, "prove_timeout_ms", None))
     s = z3.Solver()
     s.add(*conds)
     res.smt2.append((label, s.to_smt2(), "unsat"))
